@@ -421,15 +421,15 @@ Print Assumptions C18_source_read32_never_faults.
    free-list invariant, as translated from clang's typed AST of /repo's current source on every run, returns a result -
    no fault - for every argument the library's own assertions admit (and computes the model's function) *)
 Theorem C18_source_tasklist_emplace_never_faults :
-  forall (P : Type) (cap : nat) (t : tl P) (vac : list nat) (occ : list (nat * slot P)) (o d : nat),
+  forall (P : Type) (cap : nat) (t : tl P) (vac : list nat) (occ : list (nat * slot P)) 
+           (o d : nat) (p : option P),
          FL P cap t vac occ ->
          o <= 255 ->
          d <= 255 ->
          result
            (run leaf_ftable (tl_consts cap) TaskListT_void_5__emplace_u8_u8
               [BinInt.Z.of_nat o; BinInt.Z.of_nat d] (tl_fields t) (tl_arrays t)) =
-         (let
-          '(t', r) := emplace P cap t o d None in Some (Some (BinInt.Z.of_nat r), tl_fields t', tl_arrays t')).
+         (let '(t', r) := emplace P cap t o d p in Some (Some (BinInt.Z.of_nat r), tl_fields t', tl_arrays t')).
 Proof. exact (src_TaskList_emplace_FL). Qed.
 Print Assumptions C18_source_tasklist_emplace_never_faults.
 
